@@ -22,6 +22,7 @@ import (
 	"time"
 
 	"github.com/caddyserver/caddy/v2"
+	"github.com/caddyserver/caddy/v2/caddyconfig" // registers admin.api.load (/load, /adapt)
 	"github.com/cespare/xxhash/v2"
 
 	"verif/harness/internal/core"
@@ -75,6 +76,18 @@ func (p *probeApp) Start() error {
 
 func (p *probeApp) Stop() error { return nil }
 
+// wrapAdapter is the one config adapter of the harness world ("c12wrap"):
+// X -> {"apps":{"c12":X}}; an empty or undecodable body is an adapter error.
+type wrapAdapter struct{}
+
+func (wrapAdapter) Adapt(body []byte, _ map[string]any) ([]byte, []caddyconfig.Warning, error) {
+	v, err := decodeJSON(body)
+	if err != nil {
+		return nil, nil, err
+	}
+	return []byte(jsonText(map[string]any{"apps": map[string]any{"c12": v}})), nil, nil
+}
+
 // ---------------------------------------------------------------- process set-up
 
 var (
@@ -86,6 +99,7 @@ var (
 func setup() {
 	setupOnce.Do(func() {
 		caddy.RegisterModule(probeApp{})
+		caddyconfig.RegisterAdapter("c12wrap", wrapAdapter{})
 		os.MkdirAll("/verif/.run", 0o755)
 		dir, err := os.MkdirTemp("/verif/.run", "c12-")
 		if err != nil {
@@ -197,6 +211,19 @@ func errClass(status int, body []byte) string {
 	}
 	m := e.Error
 	switch {
+	case strings.HasPrefix(m, "loading config: "): // handleLoad wraps the error of caddy.Load
+		inner, _ := json.Marshal(map[string]string{"error": strings.TrimPrefix(m, "loading config: ")})
+		return "L-" + errClass(status, inner)
+	case strings.HasPrefix(m, "invalid Content-Type"):
+		return "ct-invalid"
+	case strings.HasPrefix(m, "malformed Content-Type"):
+		return "ct-malformed"
+	case strings.HasPrefix(m, "unrecognized config adapter"):
+		return "adapter-unknown"
+	case strings.HasPrefix(m, "adapting config using"):
+		return "adapt-failed"
+	case strings.HasPrefix(m, "json: error calling MarshalJSON for type json.RawMessage"):
+		return "adapt-encode"
 	case strings.HasPrefix(m, "loading new config"):
 		return "load"
 	case strings.HasPrefix(m, "indexing config"):
@@ -258,15 +285,18 @@ type step struct {
 	body   string // "-" | "!" | tree
 	ifm    string
 	force  bool
-	badCT  bool
+	ct     byte // 0 = application/json, else one of n u x c m i w (see Driver.lean ctOfChar)
 	tree   any
 	hasVal bool
 }
 
+var contentTypes = map[byte]string{0: "application/json", 'n': "", 'u': "application/json; charset=utf-8",
+	'x': "application/jsonx", 'c': "text/plain", 'm': "json", 'i': "text/plain; charset", 'w': "application/c12wrap"}
+
 var methodName = map[string]string{"G": "GET", "P": "POST", "U": "PUT", "A": "PATCH", "D": "DELETE", "H": "HEAD"}
 
 func pathOK(p string) bool {
-	if !asciiOnly(p) || !(strings.HasPrefix(p, "/config/") || strings.HasPrefix(p, "/id/")) {
+	if !asciiOnly(p) || !(strings.HasPrefix(p, "/config/") || strings.HasPrefix(p, "/id/") || p == "/load" || p == "/adapt") {
 		return false
 	}
 	for _, seg := range strings.Split(p, "/") {
@@ -293,6 +323,12 @@ func parseStep(s string) (step, bool) {
 		return st, false
 	}
 	st.path = p
+	if p == "/adapt" && st.m == "P" && st.body == "-" {
+		// not a function of the request: handleAdapt hands buf.Bytes() of a pooled buffer to
+		// json.RawMessage, which encodes nil (a buffer never written to) as null and an empty
+		// non-nil slice (a reused buffer) as nothing -> 200 {"result":null} or 500
+		return st, false
+	}
 	switch st.body {
 	case "-", "!":
 	default:
@@ -302,13 +338,18 @@ func parseStep(s string) (step, bool) {
 		}
 		st.tree, st.hasVal = t, true
 	}
-	switch {
-	case f[4] == "-":
-	case f[4] != "" && strings.Trim(f[4], "fc") == "":
-		st.force = strings.Contains(f[4], "f")
-		st.badCT = strings.Contains(f[4], "c")
-	default:
-		return st, false
+	if fl := f[4]; fl != "-" {
+		if strings.HasPrefix(fl, "f") {
+			st.force = true
+			fl = fl[1:]
+		}
+		switch {
+		case fl == "" && st.force:
+		case len(fl) == 1 && strings.Contains("nuxcmiw", fl):
+			st.ct = fl[0]
+		default:
+			return st, false
+		}
 	}
 	// If-Match syntax (resolution against earlier steps happens at run time)
 	im := st.ifm
@@ -403,10 +444,8 @@ func (st step) bodyBytes() []byte {
 func (st step) headers(ifMatch string) map[string]string {
 	h := map[string]string{}
 	if st.m != "G" && st.m != "D" && st.m != "H" {
-		if st.badCT {
-			h["Content-Type"] = "text/plain"
-		} else {
-			h["Content-Type"] = "application/json"
+		if ct := contentTypes[st.ct]; ct != "" {
+			h["Content-Type"] = ct
 		}
 	}
 	if st.force {
@@ -460,6 +499,18 @@ func showResp(r response, fails *[]core.Failure, what string) string {
 		return "hung"
 	case r.status == 301:
 		return "r"
+	case r.status == 200 && what == "/adapt":
+		var out struct {
+			Result json.RawMessage `json:"result"`
+		}
+		if json.Unmarshal(r.body, &out) != nil {
+			return "d:?"
+		}
+		v, err := decodeJSON(out.Result)
+		if err != nil {
+			return "d:?"
+		}
+		return "d:" + encTree(v)
 	case r.status == 200:
 		return "w"
 	default:
@@ -680,7 +731,7 @@ func playHist(steps []step, o *core.Outcome, tags map[string]bool) (outs []strin
 			s, rec = showGet(r, &o.Failures)
 			oracleGet(st, r, prev, &o.Failures)
 		} else {
-			s = showResp(r, &o.Failures, "")
+			s = showResp(r, &o.Failures, st.path)
 		}
 		etags = append(etags, rec)
 		tags["m:"+st.m] = true
